@@ -27,6 +27,9 @@ theorem header_preemption_keywords :
     sameSet (Core3.kPreemption.map b256) ((tableKeywords Enums.Preemption).filter (· != b256 [100, 115, 111, 95, 108, 111, 99, 97, 108, 95, 101, 113, 117, 105, 118, 97, 108, 101, 110, 116])) = true := by
   decide +kernel
 
+/-- the return attributes that are bare keywords (enum.ReturnAttr has no zero member) -/
+theorem header_retattr_keywords : sameSet (Core3.kRetAttr.map b256) (Enums.ReturnAttr.map (·.2.1)) = true := by decide +kernel
+
 /-- the clauses behind the parameter list: `unnamed_addr` / `local_unnamed_addr` and the function attributes that are bare keywords -/
 theorem header_unnamed_keywords : sameSet (Core3.kUnnamed.map b256) (tableKeywords Enums.UnnamedAddr) = true := by decide +kernel
 /-- (enum.FuncAttr has no zero member `none`: all its members are keywords) -/
